@@ -72,6 +72,9 @@ func (a *Act) callWith(instr ssa.Instruction, c *ssa.CallCommon, rt types.Type, 
 	key := relName(callee)
 	a.callCnt[key]++
 	k := a.callCnt[key]
+	if o, ok := a.callOrd[instr]; ok {
+		k = o
+	}
 	a.atCall("before-call "+fmt.Sprintf("%s#%d", key, k), Val{}, instr, nil)
 	preCall := a.cur.clone()
 	res := a.callStatic(instr, c, rt, args, callee, name, key, k)
@@ -89,6 +92,9 @@ func (a *Act) atCall(label string, res Val, instr ssa.Instruction, preCall *Stat
 		e := a.baseEnv(a.cur)
 		blk := a.curBlk
 		e.resolve = func(name string) (Val, bool) { return a.resolveDom(blk, name, a.cur) }
+		if li := a.inLoop[blk]; li != nil && li.stHeader != nil {
+			e.head = a.headerEnv(li, li.phiHavoc, li.stHeader)
+		}
 		if preCall != nil {
 			// prev(...) in an after-call assertion refers to the state just before the call
 			pe := a.baseEnv(preCall)
@@ -279,12 +285,18 @@ func (a *Act) contractCall(instr ssa.Instruction, callee *ssa.Function, ct *Cont
 	vc.comment("---- call " + cname)
 	pre := a.cur.clone()
 	vars := a.bindParams(callee, args)
-	// ghosts: bind to the caller's ghost of the same name when present
+	// ghosts: a callee contract holds for every value of its ghosts. Assignment ghosts are
+	// instantiated at the caller's ghost of the same name (directly) and, in assumed
+	// postconditions, additionally quantified over all assignments (trigger asgmark).
 	var qghost []GhostDecl
+	var allAsg []GhostDecl
 	rootGhosts := a.root().ghosts
 	for _, g := range ct.Ghosts {
 		if v, ok := rootGhosts[g.Name]; ok {
 			vars[g.Name] = v
+			if ghostSort(g.Type) == SortAsg {
+				allAsg = append(allAsg, g)
+			}
 		} else {
 			qghost = append(qghost, g)
 		}
@@ -299,19 +311,32 @@ func (a *Act) contractCall(instr ssa.Instruction, callee *ssa.Function, ct *Cont
 		}
 		return e
 	}
-	quant := func(e *Env, body func() string) string {
-		if len(qghost) == 0 {
+	quantOver := func(e *Env, gs []GhostDecl, body func() string) string {
+		if len(gs) == 0 {
 			return body()
 		}
-		var bs []string
-		for _, g := range qghost {
+		var bs, marks []string
+		for _, g := range gs {
 			s := ghostSort(g.Type)
 			n := vc.fresh("q" + g.Name)
 			e.vars[g.Name] = Val{Sort: s, Term: n}
 			bs = append(bs, fmt.Sprintf("(%s %s)", n, s))
+			if s == SortAsg {
+				marks = append(marks, app("asgmark", n))
+			}
 		}
-		return fmt.Sprintf("(forall (%s) %s)", strings.Join(bs, " "), body())
+		vc.inQuant++
+		b := body()
+		vc.inQuant--
+		if vc.inQuant == 0 {
+			b = addPatterns(b)
+		}
+		if len(marks) > 0 {
+			return fmt.Sprintf("(forall (%s) (! (=> %s %s) :pattern (%s)))", strings.Join(bs, " "), and(marks...), b, strings.Join(marks, " "))
+		}
+		return fmt.Sprintf("(forall (%s) %s)", strings.Join(bs, " "), b)
 	}
+	quant := func(e *Env, body func() string) string { return quantOver(e, qghost, body) }
 	// preconditions
 	if !a.dry && a.mode != modeSpec {
 		for _, r := range ct.Requires {
@@ -334,7 +359,23 @@ func (a *Act) contractCall(instr ssa.Instruction, callee *ssa.Function, ct *Cont
 		for _, c := range a.expandComp(it.Comp) {
 			s := vc.comps[c]
 			if it.All {
-				a.cur.mem.m[c] = vc.declareHeap("hv_"+c, s, na)
+				hv := vc.declareHeap("hv_"+c, s, na)
+				// allocations of this function that the callee cannot reach keep their contents
+				r := a.root()
+				if a == r && strings.HasPrefix(string(s), "(Array Int ") {
+					if r.escape == nil {
+						r.escape = newEscapeInfo(r.fn)
+					}
+					curC := vc.comp(pre.mem, c, s)
+					restored := map[string]bool{}
+					for _, fa := range r.freshAllocs {
+						if fa.Comp == c && fa.Site != nil && !restored[fa.Ref] && r.escape.isPrivate(fa.Site) {
+							restored[fa.Ref] = true
+							hv = vc.define("hv_"+c, s, sto(hv, fa.Ref, sel(curC, fa.Ref)))
+						}
+					}
+				}
+				a.cur.mem.m[c] = hv
 				continue
 			}
 			a.frameCheckRef(a.cur, c, it.Ref, a.posOf(instr.Pos()))
@@ -345,6 +386,22 @@ func (a *Act) contractCall(instr ssa.Instruction, callee *ssa.Function, ct *Cont
 		}
 	}
 	a.cur.mem.m["alloc"] = na
+	// channels handed to the callee: it may send on them or close them (ghost state havocked;
+	// the callee's postconditions say what is known afterwards)
+	for _, g := range args {
+		if g.T == nil || g.Loc != nil {
+			continue
+		}
+		if _, isChan := g.T.Underlying().(*types.Chan); !isChan {
+			continue
+		}
+		for _, c := range vc.chanGhostComps() {
+			s := vc.comps[c]
+			cur := vc.comp(a.cur.mem, c, s)
+			elemSort := Sort(strings.TrimSuffix(strings.TrimPrefix(string(s), "(Array Int "), ")"))
+			vc.setComp(a.cur.mem, c, s, sto(cur, g.Term, vc.declare("hv_chan", elemSort)))
+		}
+	}
 	// result
 	var res Val
 	extra := map[string]Val{}
@@ -370,6 +427,13 @@ func (a *Act) contractCall(instr ssa.Instruction, callee *ssa.Function, ct *Cont
 	}
 	// postconditions
 	for _, en := range ct.Ensures {
+		// a postcondition that mentions an assignment ghost holds for every assignment: it is assumed
+		// in quantified form (trigger asgmark; the caller's own ghost is marked, so it is an instance)
+		if len(allAsg) > 0 && mentionsGhost(en.Expr, allAsg) {
+			e2 := mkEnv(a.cur, pre, extra)
+			vc.assume(a.cur.reach, quantOver(e2, append(append([]GhostDecl{}, qghost...), allAsg...), func() string { return e2.evalBool(en.Expr) }))
+			continue
+		}
 		e := mkEnv(a.cur, pre, extra)
 		t := quant(e, func() string { return e.evalBool(en.Expr) })
 		vc.assume(a.cur.reach, t)
@@ -781,8 +845,8 @@ func (a *Act) runDefer(d deferInfo) {
 
 // hooks for message invariants (C20); filled in by chan.go
 func (a *Act) sendHook(x *ssa.Send, ch, v Val) {
-	if h := a.root().onSend; h != nil {
-		h(a, x, ch, v)
+	if sendHookImpl != nil {
+		sendHookImpl(a, x, ch, v)
 	}
 }
 func (a *Act) recvHook(x *ssa.UnOp, ch, v Val) {
@@ -878,4 +942,26 @@ func (a *Act) sortCall(instr ssa.Instruction, c *ssa.CallCommon, args []Val, lab
 	}
 	a.cur = h
 	return Val{}
+}
+
+func mentionsGhost(x *SExpr, gs []GhostDecl) bool {
+	if x == nil {
+		return false
+	}
+	if x.Kind == SIdent {
+		for _, g := range gs {
+			if g.Name == x.Name {
+				return true
+			}
+		}
+	}
+	if mentionsGhost(x.X, gs) {
+		return true
+	}
+	for _, a := range x.Args {
+		if mentionsGhost(a, gs) {
+			return true
+		}
+	}
+	return false
 }
